@@ -190,16 +190,17 @@ let show_denoted (items : (BinNums.coq_N * R.aitem) list) =
   let one (ln, it) = match it with
     | R.IRecord r ->
       Printf.sprintf "R%d o=%s t=%d c=%d y=%d d=%s v=ok" (int_of_n ln) (nm r.R.a_owner)
-        (int_of_n r.R.a_ttl) (int_of_n r.R.a_class) (int_of_n r.R.a_type) (hex (R.rdata_wire r.R.a_rdata))
+        (int_of_n r.R.a_ttl) (int_of_n r.R.a_class) (int_of_n r.R.a_type) (hex (R.rdata_wire R.rfc_order r.R.a_rdata))
     | R.IInclude (path, o) ->
       Printf.sprintf "I%d p=%s o=%s" (int_of_n ln) (hex path) (match o with Some ls -> nm ls | None -> "none") in
   String.concat " ; " (Stdlib.List.map one items @ ["after=0"])
 
 let run_zrc file expected ser =
   let lines = decode_lines ser in
-  let coq_text = R.render lines in
-  let denoted = show_denoted (R.number_lines lines) in
-  if not (R.file_ok R.sctx0 lines) then "coq-file_ok=false | " ^ denoted
+  (* the specification with the RFC's numbering of the WKS bits (known finding C23-1: the parser's differs) *)
+  let coq_text = R.render R.rfc_order lines in
+  let denoted = show_denoted (R.number_lines R.rfc_order lines) in
+  if not (R.file_ok R.rfc_order R.sctx0 lines) then "coq-file_ok=false | " ^ denoted
   else if coq_text <> file then "coq-render=" ^ hex coq_text ^ " | " ^ denoted
   else if denoted <> expected then "coq-denotes-differently | " ^ denoted
   else run_zf file ^ " | " ^ denoted
